@@ -25,6 +25,20 @@ Correspondence streams (canonical digest of BOTH indexes compared with the model
                   after each history the node sends to every destination and the next
                   hop of the emitted frames is read
   node-random   : random histories of length 300 on nodes of three configurations
+  vlan-burst-pairs / vlan-bursts / vlan-longrun (wave 4): the same node on REAL vlan.Network
+                  LANs, routers as raw vlan.Node stations, every frame through the REAL
+                  TaskManager and core.run() under harness/vt.py virtual time.  Frames are
+                  submitted in BURSTS (same instant, scheduler run afterwards); model and
+                  oracle apply a burst in submission order (a LAN delivers in order of
+                  sending).  pairs: every ordered pair of the 48 frame letters as one burst
+                  (thorough: after every one-letter prefix) + next-hop probes; bursts: random
+                  length-300 histories with bursts of 1..4; longrun: ONE long-lived process,
+                  >= 70 000 (thorough 140 000) scheduled vlan deliveries, competing
+                  announcements "x1 announces d; x2 announces d[; x3 …]" back-to-back all the
+                  way and aligned (harness counts TaskManager.install_task calls) so that a
+                  burst straddles every power of two >= 2^8 and every multiple of 2^16 of the
+                  scheduler's life; after every burst the next hop must be the LAST sender and
+                  traffic sent afterwards must arrive at that router's station.
 
 Implementation-side oracle (independent of the model), after every operation:
   * Coherent, evaluated on the real object by identity:
@@ -53,7 +67,10 @@ RULE = ("cache: all op sequences <=4 (quick) / <=5 (thorough) over 40 letters {l
         "router+dnets deletion, status, None network, empty lists, refused call) <=2/<=3; random length-300 "
         "lockstep sequences; node level: histories <=2 over 66 letters and <=3/<=4 over 40 letters as real "
         "NPDUs into NetworkServiceAccessPoint+NetworkServiceElement with next-hop probes, random length-300 "
-        "histories over three adapter configurations. distinct = distinct (stream, op-kind word or model "
+        "histories over three adapter configurations; the same node on real vlan LANs through the real "
+        "TaskManager under virtual time: all ordered pairs of 48 frame letters as same-instant bursts, random "
+        "burst histories, one long-lived process (>=70k / >=140k scheduled deliveries) with competing "
+        "announcements straddling every 2^k>=256 and every multiple of 2^16 of the task counter. distinct = distinct (stream, op-kind word or model "
         "branch path, final shape class #routers/#paths) signatures; trivial = empty history")
 TRUSTED = ["lean/BacVerif/Model/RouterCache.lean is a hand transcription of RouterInfoCache and of the "
            "learning paths in NetworkServiceAccessPoint/NetworkServiceElement (after the two C19 fixes); "
@@ -943,12 +960,451 @@ def gen_random_evs(rng, length, cfg_name):
     return evs
 
 
+# ------------------------------------------------------------------ real vlan + real TaskManager (virtual time)
+#
+# The rig above hands every frame straight to the adapter.  Here the node sits on real
+# vlan.Network objects, the routers are raw vlan.Node stations, every frame travels through
+# the real TaskManager (vlan.Node.indication -> OneShotFunction -> Network.process_pdu) and
+# the real core.run() under harness/vt.py virtual time.  Frames may be submitted in BURSTS
+# (same instant, scheduler run only afterwards): a LAN delivers in the order of sending, so
+# the oracle and the model apply the burst in submission order.
+
+_VT = {}
+FILLER_DST = 98          # a station that does not exist: the cheapest frame a LAN can carry
+
+
+def vt_install():
+    """virtual time + a counting wrapper round the real TaskManager.install_task (observation
+    only: the real method runs unchanged).  `exact` = the count covers the whole life of the
+    singleton task manager of this process."""
+    if "vt" in _VT:
+        _VT["vt"].reset()
+        return _VT
+    import bacpypes.task as btask
+    fresh = btask._task_manager is None
+    pre = len(btask._unscheduled_tasks)      # installed by TaskManager.__init__ itself
+    from .vt import VT
+    vt = VT.install()
+    tm = vt.tm
+    orig = tm.install_task
+    _VT.update(vt=vt, installs=pre if fresh else 0, exact=fresh)
+
+    def counting(task):
+        _VT["installs"] += 1
+        return orig(task)
+    tm.install_task = counting
+    return _VT
+
+
+def err_kind_named(name, msg):
+    if name == "RuntimeError" and "inconsistent parameters" in msg:
+        return "inconsistent"
+    if name == "RuntimeError" and "no adapter for network" in msg:
+        return "noAdapter"
+    if name == "TypeError" and "%d format" in msg:
+        return "noAdapter"
+    if name == "KeyError":
+        return "keyError"
+    return "python:" + name
+
+
+class VlanNode(RealNode):
+    """the same node on real vlan.Network LANs, driven through the real scheduler"""
+
+    def __init__(self, cfg_name, lean=False):
+        self.V = vt_install()
+        self.vt = self.V["vt"]
+        self.lean = lean
+        self.hold = False
+        self.taps = []
+        self.errors = []
+        RealNode.__init__(self, cfg_name)
+
+    def _add_port(self, net, address):
+        from bacpypes.vlan import Network, Node
+        from bacpypes.comm import Client
+        K = self.K
+        idx = len(self.wires)
+        me = addr(100 + idx)
+        lan = Network(name="lan%d" % idx, broadcast_address=K["LocalBroadcast"]())
+        vnode = Node(me, lan)
+        self.sap.bind(vnode, net, address)
+        self.wires.append(vnode)
+        self.ports.append(vnode.serverPeer)
+        log = self.log
+        bcast_type = K["Address"].localBroadcastAddr
+
+        class Tap(Client):
+            """a raw station: routers 1..3, the probe destination, a listener for broadcasts"""
+
+            def __init__(self, listener):
+                Client.__init__(self)
+                self.listener = listener
+
+            def confirmation(self, pdu):
+                if pdu.pduSource != me:
+                    return
+                if (pdu.pduDestination.addrType == bcast_type) != self.listener:
+                    return
+                log.append((idx, pdu.pduDestination, bytes(pdu.pduData)))
+
+        taps = {}
+        for a in ROUTERS + ([] if self.lean else [PROBE_DST]) + [99]:
+            t = Tap(a == 99)
+            K["bind"](t, Node(addr(a), lan))
+            taps[a] = t
+        self.taps.append(taps)
+
+    def deliver(self, port, src, data, bcast):
+        K = self.K
+        pdu = K["PDU"](data, destination=K["LocalBroadcast"]() if bcast else addr(100 + port))
+        self.taps[port][src].request(pdu)
+        if not self.hold:
+            self.flush()
+
+    def flush(self):
+        if not self.vt.run():
+            raise core.Infra("scheduler did not become quiet")
+        self.errors += [err_kind_named(n, m) for n, m in self.vt.errors]
+        if self.vt.errors:
+            self.last_exc = RuntimeError("%s: %s" % self.vt.errors[0])
+        del self.vt.errors[:]
+
+    def fillers(self, n):
+        """n frames nobody receives (n scheduled vlan deliveries)"""
+        K = self.K
+        tap = self.taps[0][ROUTERS[0]]
+        while n > 0:
+            k = min(n, 256)
+            for _ in range(k):
+                tap.request(K["PDU"](b"\x01\x00", destination=addr(FILLER_DST)))
+            n -= k
+            self.flush()
+
+    def burst(self, evs):
+        """submit all events in the same instant, then run the scheduler: (frames, [raised kinds])"""
+        del self.log[:]
+        del self.errors[:]
+        self.hold = len(evs) > 1
+        raised = []
+        try:
+            for ev in evs:
+                _f, r = RealNode.step(self, ev)      # (log is cleared per step: nothing is in it before the flush)
+                if r is not None:
+                    raised.append(r)
+        finally:
+            self.hold = False
+        self.flush()
+        raised += self.errors
+        return [self.frame(f) for f in self.log], raised
+
+    def step(self, ev):
+        frames, raised = self.burst([ev])
+        return frames, (raised[0] if raised else None)
+
+
+def is_frame_event(ev):
+    return ev[0] in ("iam", "routed")
+
+
+def run_vlan_history(ctx, case, cfg_name, bursts, node=None, m=None, lean=False):
+    """bursts: list of lists of events (size > 1: I-Am / routed frames only).  Oracle after every
+    burst, in submission order.  Returns one reply per burst."""
+    node = node or VlanNode(cfg_name, lean=lean)
+    cache = node.sap.router_info_cache
+    m = {} if m is None else m
+    replies = []
+    whole = case
+    for bi, evs in enumerate(bursts):
+        case = dict(whole, bursts=bursts[:bi + 1])
+        sap = node.sap
+        exp_ops = [node_expected_op(node, ev) for ev in evs]
+        exp_fr = expected_frames(node, evs[0]) if evs[0][0] == "orig" else None
+        key_ok = evs[0][0] == "nni" and exp_ops[0] is not None and node.ports[evs[0][1]].adapterNet not in sap.adapters
+        pend_before = {d: len(v) for d, v in sap.pending_nets.items()}
+        frames, raised = node.burst(evs)
+        ok = True
+        for r in raised:
+            if r.startswith("python:") or (r == "keyError" and not key_ok):
+                ctx.fail("exception", case, "burst %d %r raised %s (%s)" % (bi, evs, r, node.last_exc), burst_index=bi)
+                ok = False
+        quiet = [ev for ev in evs if ev[0] == "iam" and node.ports[ev[1]].adapterNet not in sap.adapters]
+        for ev, op in zip(evs, exp_ops):
+            if op is not None and (not raised or raised == ["keyError"] or len(evs) > 1):
+                abs_apply(m, op)
+        if ok and len(evs) > 1 and not raised:
+            # newest wins inside the burst: the LAST frame sent for a destination decides
+            for ev, op in zip(evs, exp_ops):
+                if op is None:
+                    continue
+                for d in op[3]:
+                    last = [o[2] for o in exp_ops if o is not None and o[1] == op[1] and d in o[3]][-1]
+                    ri = cache.get_router_info(op[1], d)
+                    got = None if ri is None else aid(ri.address)
+                    if got != last:
+                        ctx.fail("newest-wins", case, "burst %d %r: next hop for (%s,%d) is %r, the newest "
+                                 "announcement came from %d" % (bi, evs, nstr(op[1]), d, got, last), burst_index=bi)
+                        ok = False
+                        break
+                if not ok:
+                    break
+        if ok:
+            ok = check_state(ctx, case, cache, m, "after burst %d %r (applied in the order sent)" % (bi, evs))
+        if ok and evs[0][0] == "orig" and not raised and frames != exp_fr:
+            ctx.fail("traffic", case, "burst %d %r: emitted %r, current knowledge says %r" % (bi, evs, frames, exp_fr))
+            ok = False
+        if ok and not raised and not quiet and all(ev[0] in ("iam", "routed") for ev in evs):
+            want = []
+            for ev in evs:
+                if ev[0] == "iam":
+                    for d in ev[3]:
+                        if d in pend_before:
+                            want += [["apdu", ev[1], ev[2], d]] * pend_before.pop(d)
+            got = [f for f in frames if f[0] == "apdu"]
+            if got != want:
+                ctx.fail("traffic", case, "burst %d %r: released %r, expected %r" % (bi, evs, got, want))
+                ok = False
+        replies.append({"r": "ok", "out": frames, "raised": raised, "d": node.digest()})
+        if not ok:
+            break
+    return replies
+
+
+def model_bursts_many(cfg_name, histories):
+    """the model's replies for several histories (each from the initial node), merged per burst
+    (events applied in submission order); one driver process for all"""
+    drv = core.Driver("drv_c19")
+    reqs = []
+    for bursts in histories:
+        reqs.append(dict(NODE_CFGS[cfg_name], op="node"))
+        reqs += [{"op": "n", "e": e} for b in bursts for e in b]
+    b = drv.ask(reqs)
+    res, i = [], 0
+    for bursts in histories:
+        init = b[i]
+        i += 1
+        out = []
+        for evs in bursts:
+            rs = b[i:i + len(evs)]
+            i += len(evs)
+            out.append({"r": "ok", "out": [f for r in rs for f in r["out"]],
+                        "raised": [r["raised"] for r in rs if r["raised"] is not None], "d": rs[-1]["d"]})
+        res.append((init, out))
+    return res
+
+
+def model_bursts(cfg_name, bursts):
+    return model_bursts_many(cfg_name, [bursts])[0]
+
+
+def burst_sig(c, mreply):
+    evs = c["bursts"][-1]
+    return ("".join(ev_letter(e) for e in evs), tuple(mreply.get("raised", [])),
+            tuple(f[0] for f in mreply.get("out", []))[:4])
+
+
+def run_lockstep_vlan(ctx, stream, cfg_name, bursts):
+    case = {"stream": stream, "cfg": cfg_name, "bursts": bursts}
+    a = run_vlan_history(ctx, case, cfg_name, bursts)
+    n = len(a)
+    if ctx.model_ok:
+        init, b = model_bursts(cfg_name, bursts[:n])
+        if init.get("d") != initial_digest(cfg_name):
+            ctx.disagree("node-config", {"cfg": cfg_name}, {"d": initial_digest(cfg_name)}, init)
+        cases = [{"stream": stream, "cfg": cfg_name, "bursts": bursts[:i + 1]} for i in range(n)]
+        ctx.compare_stream(stream, cases, a, b, sig=burst_sig)
+    else:
+        for _ in range(n):
+            ctx.count(stream)
+    return a
+
+
+def gen_random_bursts(rng, length, cfg_name):
+    """a random history whose frame events are grouped into bursts of 1..4"""
+    evs = gen_random_evs(rng, length, cfg_name)
+    bursts, cur = [], []
+    for ev in evs:
+        if is_frame_event(ev):
+            cur.append(ev)
+            if len(cur) >= rng.choice([1, 2, 2, 3, 4]):
+                bursts.append(cur)
+                cur = []
+        else:
+            if cur:
+                bursts.append(cur)
+                cur = []
+            bursts.append([ev])
+    if cur:
+        bursts.append(cur)
+    return bursts
+
+
+def frame_letters():
+    return [e for e in node_alphabet(True) if is_frame_event(e)]
+
+
+def shard_vlan_pairs(ctx, spec):
+    """every ordered pair of the 48 frame letters as ONE burst (after every one-letter prefix in
+    thorough), then the next hop of every destination is probed"""
+    al = frame_letters()
+    stream = "vlan-burst-pairs"
+    probes = [[["orig", d, PROBE_DST]] for d in DNETS]
+    done = []
+    for pre in spec["prefixes"]:
+        for i in spec["firsts"]:
+            for j in range(len(al)):
+                bursts = ([[al[pre]]] if pre is not None else []) + [[al[i], al[j]]] + probes
+                case = {"stream": stream, "cfg": "learned", "bursts": bursts}
+                a = run_vlan_history(ctx, case, "learned", bursts)
+                done.append((bursts[:len(a)], a))
+    if spec["model"]:
+        res = model_bursts_many("learned", [bs for bs, _a in done])
+        for (bs, a), (init, b) in zip(done, res):
+            cases = [{"stream": stream, "cfg": "learned", "bursts": bs[:i + 1]} for i in range(len(bs))]
+            ctx.compare_stream(stream, cases, a, b, sig=burst_sig)
+        if res and res[0][0].get("d") != initial_digest("learned"):
+            ctx.disagree("node-config", {"cfg": "learned"}, {"d": initial_digest("learned")}, res[0][0])
+    else:
+        ctx.count(stream, n=sum(len(a) for _bs, a in done))
+
+
+def shard_vlan_random(ctx, spec):
+    for i in range(spec["first"], spec["first"] + spec["count"]):
+        rng = ctx.sub_rng("c19-vlan-%d" % i)
+        cfg = ["learned", "unknown", "single"][i % 3]
+        bursts = gen_random_bursts(rng, 300, cfg)
+        nf = len(ctx.failures)
+        ctx.model_ok = spec["model"]
+        a = run_lockstep_vlan(ctx, "vlan-bursts", cfg, bursts)
+        if len(ctx.failures) > nf:
+            rec = ctx.failures[nf]
+
+            def still(bs, kind=rec["kind"]):
+                sub = core.Ctx("C19", "quick", 0)
+                run_vlan_history(sub, {"stream": "shrink"}, cfg, bs)
+                return any(f["kind"] == kind for f in sub.failures)
+            small = shrink(rec["case"]["bursts"], still, budget=300)
+            del ctx.failures[nf:]
+            run_vlan_history(ctx, {"stream": "vlan-bursts", "cfg": cfg, "shrunk_from": len(bursts)}, cfg, small)
+        if i < 1:
+            ctx.sample({"stream": "vlan-bursts", "cfg": cfg, "bursts": bursts[:4],
+                        "digest_after_4": a[min(3, len(a) - 1)]["d"]})
+
+
+def longrun_boundaries(limit):
+    """counter values where a sequence number of limited width would wrap: every power of two from
+    2^8 and every multiple of 2^16"""
+    bs = {1 << k for k in range(8, 40) if (1 << k) <= limit}
+    bs |= set(range(1 << 16, limit + 1, 1 << 16))
+    return sorted(bs)
+
+
+def longrun_round(ctx, node, m, r, stream, aligned, probe, model_log):
+    """one burst "x1 announces d; x2 announces d[; x3 announces d]" + checks; returns False after a failure"""
+    d = DNETS[r % len(DNETS)]
+    rot = r % 3
+    order = (ROUTERS[rot:] + ROUTERS[:rot])[:2 if r % 2 == 0 else 3]
+    burst = [["iam", 0, x, [d]] for x in order]
+    before = node.V["installs"]
+    bursts = [burst] + ([[["orig", d, PROBE_DST]]] if probe else [])
+    case = {"stream": stream, "cfg": "single", "installs_before": before, "exact_count": node.V["exact"],
+            "aligned_to": aligned, "bursts": bursts}
+    nf = len(ctx.failures)
+    a = run_vlan_history(ctx, case, "single", bursts, node=node, m=m, lean=True)
+    model_log.append((case, bursts[:len(a)], a))
+    if len(ctx.failures) > nf:
+        # where does traffic for d go now?  (read on the wire, part of the failure record)
+        after, _r = node.step(["orig", d, PROBE_DST])
+        for rec in ctx.failures[nf:]:
+            rec["installs_before"] = before
+            rec["traffic_afterwards"] = after
+            rec["what"] += "; traffic for %d sent afterwards: %r" % (d, after)
+        return False
+    # traffic sent afterwards goes to the newest router (read on the wire at that router's station)
+    if probe and a[-1]["out"] != [["apdu", 0, order[-1], d]]:
+        ctx.fail("traffic", case, "after %d scheduled deliveries: traffic for %d went %r, newest router is %d" % (
+            before, d, a[-1]["out"], order[-1]), installs_before=before)
+        return False
+    return True
+
+
+def shard_longrun(ctx, spec):
+    """ONE long-lived process: >= spec["target"] vlan deliveries through the singleton TaskManager;
+    competing announcements sent back-to-back all the way, and aligned so that one burst straddles
+    every boundary of longrun_boundaries()"""
+    stream = "vlan-longrun"
+    node = VlanNode("single", lean=True)
+    V = node.V
+    m = {}
+    # always cross the next multiple of 2^16 of THIS process's counter, however old the process is
+    target = max(spec["target"], ((((V["installs"] >> 16) + 1) << 16) + 4464))
+    model_log = []
+    r = 0
+    rounds = 0
+    ok = True
+    bounds = [b for b in longrun_boundaries(target) if b - 1 > V["installs"] + 8]
+    gap = spec.get("gap", 96)
+    while ok and V["installs"] < target:
+        nxt = bounds[0] if bounds else None
+        dist = None if nxt is None else nxt - 1 - V["installs"]
+        aligned = None
+        if dist is not None and dist <= gap:
+            # bring the counter to nxt-1: the first frame of the burst gets nxt-1, the second nxt
+            node.fillers(dist)
+            aligned = nxt
+            bounds.pop(0)
+            while bounds and bounds[0] - 1 <= V["installs"] + 8:
+                bounds.pop(0)
+        else:
+            # cheap traffic; never run past the next boundary with an unaligned round (a round is <= 5 deliveries)
+            node.fillers(gap if dist is None else min(gap, dist - 8))
+        ok = longrun_round(ctx, node, m, r, stream, aligned, probe=(aligned is not None or r % 8 == 0),
+                           model_log=model_log)
+        r += 1
+        rounds += 1
+        if ok and aligned is not None:
+            # and once more right behind the boundary, other order
+            ok = longrun_round(ctx, node, m, r, stream, None, probe=True, model_log=model_log)
+            r += 1
+            rounds += 1
+    # correspondence with the model: the whole run as one history (fillers are invisible to it)
+    if spec["model"]:
+        allb = [b for (_c, bs, _a) in model_log for b in bs]
+        alla = [x for (_c, _bs, a) in model_log for x in a]
+        init, mb = model_bursts("single", allb)
+        cases = []
+        for (c, bs, _a) in model_log:
+            for i in range(len(bs)):
+                cases.append(dict(c, bursts=bs[:i + 1]))
+        ctx.compare_stream(stream, cases, alla, mb, sig=burst_sig)
+    else:
+        ctx.count(stream, n=rounds)
+    ctx.notes.append("vlan-longrun: %d scheduled deliveries in one process, %d competing bursts, "
+                     "counter %s" % (V["installs"], rounds, "exact" if V["exact"] else "relative (task manager pre-existed)"))
+
+
 # ------------------------------------------------------------------ corpus / replay
 
 def run_case(ctx, case, stream=None):
     """a self-contained case: cache op list or node history"""
     stream = stream or case.get("stream") or "replay"
-    if "evs" in case:
+    if "bursts" in case:
+        cfg = case.get("cfg", "learned")
+        if case.get("installs_before") is not None:
+            # a burst late in a long-lived process: bring the scheduler of THIS process to the same age
+            node = VlanNode(cfg, lean=True)
+            need = case["installs_before"] - node.V["installs"]
+            if need < 0 or not node.V["exact"]:
+                raise core.Infra("cannot reproduce the age of the task manager in this process")
+            node.fillers(need)
+            a = run_vlan_history(ctx, dict(case, stream=stream), cfg, case["bursts"], node=node, m={}, lean=True)
+            if ctx.model_ok:
+                _init, b = model_bursts(cfg, case["bursts"][:len(a)])
+                cases = [dict(case, bursts=case["bursts"][:i + 1]) for i in range(len(a))]
+                ctx.compare_stream(stream, cases, a, b, sig=burst_sig)
+        else:
+            run_lockstep_vlan(ctx, stream, cfg, case["bursts"])
+    elif "evs" in case:
         cfg = case.get("cfg", "learned")
         a = run_lockstep_node(ctx, stream, cfg, case["evs"])
         if case.get("probes") and len(a) == len(case["evs"]):
@@ -973,6 +1429,21 @@ def run(ctx):
     model = bool(ctx.model_ok)
     quick = ctx.quick
     specs = []
+    # real vlan + real scheduler: the long-lived process first (longest single shard)
+    specs.append(("shard_longrun", {"target": 70000 if quick else 140000, "model": model}))
+    nfl = len(frame_letters())
+    if quick:
+        for i in range(0, nfl, 8):
+            specs.append(("shard_vlan_pairs", {"prefixes": [None], "firsts": list(range(i, min(i + 8, nfl))),
+                                               "model": model}))
+    else:
+        for pre in [None] + list(range(nfl)):
+            for i in range(0, nfl, 24):
+                specs.append(("shard_vlan_pairs", {"prefixes": [pre], "firsts": list(range(i, min(i + 24, nfl))),
+                                                   "model": model}))
+    nvl = 8 if quick else 96
+    for i in range(0, nvl, 2):
+        specs.append(("shard_vlan_random", {"first": i, "count": 2, "model": model}))
     # exhaustive cache histories
     if quick:
         specs += [("shard_enum", s) for s in enum_specs("a40", 40, 4, 2, 25, model, "enum")]
@@ -996,7 +1467,7 @@ def run(ctx):
     ctx.exhaustive = True
     ctx.extra["exhaustive_history_length"] = {"cache": 4 if quick else 5, "cache_wide": 2 if quick else 3,
                                               "node40": 3 if quick else 4, "node66": 2}
-    for st in ("enum", "random", "node-enum40", "node-random"):
+    for st in ("enum", "random", "node-enum40", "node-random", "vlan-burst-pairs", "vlan-bursts", "vlan-longrun"):
         ctx.sample({"stream": st, "count": ctx.streams.get(st, 0)})
 
 
